@@ -107,7 +107,7 @@ Analyze(withExp) ==
 
 Next == \/ Kind # "analyzer" /\ "circuit" \in Feat /\ \E c \in Circs : SetCircuit(c)
         \/ Kind # "analyzer" /\ "edit" \in Feat /\ \E c \in Circs : EditCircuit(c)
-        \/ Kind # "analyzer" /\ "param" \in Feat /\ \E v \in 1..2 : SetParam(v)
+        \/ Kind # "analyzer" /\ "param" \in Feat /\ \E v \in 1..3 : SetParam(v)       \* value 3 differs from value 1 by a step of 2e-7
         \/ Kind # "analyzer" /\ "input" \in Feat /\ \E v \in 1..2 : SetInput(v)
         \/ "source" \in Feat /\ \E v \in 1..2 : SetSource(v)
         \/ "backend" \in Feat /\ \E v \in 1..2 : SetBackend(v)
